@@ -8,6 +8,7 @@
   reply: one token per op, then ` | out=<hex> pos=<int> realpos=<int> rbuf=<hex> wbuf=<hex> closed=<0|1> left=<nat>`
 -/
 import PV.Model.BufFileU
+import PV.Model.ChanFile
 import PV.Base.DriverIO
 open PV PV.BufFile
 
@@ -71,6 +72,21 @@ def step' (line : String) : String :=
         " closed=" ++ (if f.closed then "1" else "0") ++ " left=" ++ toString f.s.inp.length ++
         " atcr=" ++ (if u.atCR then "1" else "0") ++ " nl=" ++ showNL u.nl
     | _, _, _, _, _, _ => "bad-op"
+  -- channel file classes: `progc <file|stderr|stdin> <mode> <bufsize> <inp> <read-grants> <op>*`
+  -- (`x` = leaving a `with` block = close()); the writes of these classes are never short
+  | "progc" :: kind :: mode :: bufsize :: inp :: rg :: ops =>
+    match intOfString? bufsize, ofHex? inp, parseNats rg,
+          (ops.map fun o => if o == "x" then "c" else o).mapM parseOp with
+    | some bs, some inp, some rg, some ops =>
+      if kind != "file" && kind != "stderr" && kind != "stdin" then "bad-op" else
+      let f0 : BF Chan := { s := { inp := inp, rg := rg, wg := [] } }
+      let (c, rs) := runC { f := setMode f0 mode.toList bs 0, stdin := kind == "stdin" } ops
+      let f := c.f
+      " ".intercalate (rs.map showOut) ++ " | out=" ++ toHexTok f.s.out ++ " pos=" ++ toString f.pos ++
+        " realpos=" ++ toString f.realpos ++ " rbuf=" ++ toHexTok f.rbuf ++ " wbuf=" ++ toHexTok f.wbuf ++
+        " closed=" ++ (if f.closed then "1" else "0") ++ " left=" ++ toString f.s.inp.length ++
+        " eofs=" ++ toString c.eofs ++ " ateof=" ++ (match c.atEof with | none => "none" | some b => toHexTok b)
+    | _, _, _, _ => "bad-op"
   | _ => "bad-op"
 
 def main : IO Unit := lineLoop step'
